@@ -260,9 +260,9 @@ func genC19(c *fw.Ctx) {
 												nodes = append(nodes, n("GET", "/first").WithParen().WithKids(n("200", "any")))
 											}
 											// the annotation of a declared tag is free text: ordinary, looking like the title of
-										// an automatic tag ("/..."), looking like a tag name
-										gTitle := []string{"Group G", "/g looks like a path", "@k"}[(m1+m2+ui)%3]
-										decl := []*doc.Node{n("TAG", "@g").WithAnn(gTitle), n("TAG", "@k").WithKids(n("Description").WithBody("about k"))}
+											// an automatic tag ("/..."), looking like a tag name
+											gTitle := []string{"Group G", "/g looks like a path", "@k"}[(m1+m2+ui)%3]
+											decl := []*doc.Node{n("TAG", "@g").WithAnn(gTitle), n("TAG", "@k").WithKids(n("Description").WithBody("about k"))}
 											// a declared tag that has the automatic name of the URL's first segment: the
 											// tagless interactions on that path belong to it, and it keeps its title
 											declU := !undeclared && (m1+m2+ui)%2 == 1
